@@ -773,10 +773,9 @@ class Gen:
             body.append({"k": "expr", "e": E("if", UNIT, True, True, stmt=True,
                                             cond=E("bin", BOOL, op="<=", l=kvar, r=E("int", INT, v=0)),
                                             then=[{"k": "return", "e": base}], els=None)})
-            self.funs.append(fdesc)     # visible to itself, but only through the guarded call below
+            # the function is NOT visible while its arguments are generated: the only recursive call is the guarded one
             rec_args = [E("bin", INT, op="-", l=kvar, r=E("int", INT, v=1))] + [self.expr(p[2], 1, False) for p in params[1:]]
             rec_call = E("call", ret, fdesc["pure"], fdesc["total"], fn=name, args=rec_args)
-            self.funs.pop()
             if ret == UNIT:
                 body.append({"k": "expr", "e": rec_call})
             else:
